@@ -1,7 +1,7 @@
 #!/bin/bash
 # tools/run_all_seeds.sh [ids...]: run each seed's property quick check against the seeded tree; table to out/seeds.tsv
 cd /verif
-ids="$*"; [ -z "$ids" ] && ids=$(ls seeded)
+ids="$*"; [ -z "$ids" ] && ids=$(ls seeded | grep -v RESULTS)
 mkdir -p out/seedlogs
 run() { id=$1; tools/run_seed.sh $id > out/seedlogs/$id.log 2>&1
   if grep -q '^VIOLATION' out/seedlogs/$id.log; then r=VIOLATION; elif grep -q '^UNDECIDED' out/seedlogs/$id.log; then r=UNDECIDED; elif grep -q 'rc=0' out/seedlogs/$id.log; then r=missed; else r=error; fi
